@@ -45,13 +45,14 @@ impl<'a, 'tcx, 'ast> Visitor<'ast> for V<'a, 'tcx> {
     fn visit_expr(&mut self, e: &'ast ast::Expr) {
         if let ast::ExprKind::FormatArgs(fa) = &e.kind {
             let tcx = self.tcx;
-            let outer = fa.span.source_callsite();
+            let outer = e.span.source_callsite();
             let (file, line, col) = pos(tcx, outer);
+            let (_, sline, _) = pos(tcx, fa.span.source_callsite());
             let mut o = String::from("{\"k\":\"fmt\",\"file\":");
             json::str(&mut o, &file);
-            o.push_str(&format!(",\"line\":{},\"col\":{}", line, col));
+            o.push_str(&format!(",\"line\":{},\"col\":{},\"sline\":{}", line, col, sline));
             o.push_str(",\"macros\":[");
-            for (i, m) in macro_chain(fa.span).iter().enumerate() {
+            for (i, m) in macro_chain(e.span).iter().enumerate() {
                 if i > 0 {
                     o.push(',');
                 }
